@@ -373,8 +373,10 @@ def update_case(cfg: Dict[str, Any]) -> Tuple[Any, str, List[str]]:
         body = b"this is not zlib data\n" + text
     elif cfg["zip"] == "truncated":
         body = body[: max(1, len(body) // 2)]
+    banner = HEADER + b"".join(b"# licence line %d\n" % i for i in range(1500))
     data: Optional[bytes] = {"normal": HEADER + body, "missing": body, "onlycomments": HEADER,
-                             "nonewline": b"# Sphinx inventory version 2"}[cfg["header"]]
+                             "nonewline": b"# Sphinx inventory version 2",
+                             "banner": banner + body, "manycomments": banner}[cfg["header"]]
     url = "nourl" if cfg["url"] == "noslash" else BASE + "/objects.inv"
     cache: Any
     if cfg["fetch"] == "none":
@@ -515,7 +517,7 @@ def run(ctx: Ctx) -> int:
     for fid in FINDINGS:
         ctx.register_matcher(fid, kf_matcher(fid, open_ids))
     stats = {k: 0 for k in ("rows", "usable_rows", "lenient_rows", "objects", "updates", "drift", "violations", "file_rows",
-                            "superseded_not_listed", "byte_strings", "multi", "histories", "write_histories", "url_cases")}
+                            "superseded_not_listed", "byte_strings", "multi", "histories", "write_histories", "url_cases", "root_histories")}
     design: List[str] = []
 
     def tlc(mode: str, classes: List[str], maxcols: int = 0, maxdepth: int = 0, env: Optional[Dict[str, str]] = None,
@@ -718,6 +720,44 @@ def run(ctx: Ctx) -> int:
             ctx.violation({"invariant": "DocumentedOnItsOwnPage", "origin": "urls", "input": full, "roots": rec["roots"],
                            "observed": {"url": o.url}, "expected": want, "design_classes": [], "drift": True,
                            "key": f"url:{full}:{rec['roots']}"})
+
+    # ---- a system that grows: roots added and analysed one after the other, urls read in between, inventories written
+    r = tlc("roots", classes)
+    ROOTS = [("alpha", "'doc'\ndef start():\n    'd'\nclass Engine:\n    'see L{start}'\n    def run(self): 'd'\n"),
+             ("beta", "'doc'\ndef stop():\n    'd'\n"), ("gamma", "'doc'\nclass G:\n    'doc'\n")]
+    for rec in r.printed:
+        events = seq(rec["cfg"])
+        from pydoctor import model, epydoc2stan
+        from pydoctor.stanutils import flatten as _flatten
+        system = model.System()
+        system.options.verbosity = -3
+        builder = system.systemBuilder(system)
+        nroots, nw = 0, 0
+        stats["root_histories"] += 1
+        for k, e in enumerate(events, 1):
+            ctx.traces += 1
+            if e == "A":
+                builder.addModuleString(ROOTS[nroots][1], ROOTS[nroots][0])
+                builder.buildModules()
+                nroots += 1
+            elif e == "T":
+                for o in list(system.allobjects.values()):
+                    o.url                                     # what rendering a link to the object reads
+                eng = system.allobjects.get("alpha.Engine")
+                if eng is not None:
+                    _flatten(epydoc2stan.format_docstring(eng))
+            else:
+                nw += 1
+                if len(system.rootobjects) != seq(rec["answers"])[nw - 1]:
+                    stats["drift"] += 1
+                    ctx.drift_note({"events": events[:k], "model_roots": seq(rec["answers"])[nw - 1], "real": len(system.rootobjects)})
+                nv = len(ctx.violations) + sum(ctx.known_seen.values())
+                judge_project(ctx, system, f"roots:{''.join(events[:k])}", {}, stats, open_ids)
+                if len(ctx.violations) + sum(ctx.known_seen.values()) != nv:
+                    stats["drift"] += 1
+                    ctx.drift_note({"events": events[:k], "model": "targets follow the roots present now", "real": "see violation"})
+                    for v in ctx.violations[-4:]:
+                        v.setdefault("events", events[:k])
 
     # ---- several generate() calls in one process, through the same / different writer objects
     from pydoctor import sphinx as _sphinx
